@@ -43,6 +43,8 @@ def run(check):
         holder['fold'] = rules_fold.rule_fold(check, 'C01.R5', '_signatures:merge', ('_Merger',), WITNESS_FOLD)
 
     check.run_rule('C01.R5', r5)
+    from ..rules_defuse import rule_sentinel_identity
+    check.run_rule('C01.R7', lambda c: rule_sentinel_identity(c, 'C01.R7', ['_signatures'], '-- merge raises IncompatibleSignatures, or drops a default, for compatible signatures', floor=6))
     check.run_rule('C01.R1', r1)
     check.run_rule('C01.R3', lambda c: rm.rule_tables(
         c, model(), 'C01.R3', ('sound',), 'effect lies in the sound set of every compatible row (tables B2-B4)',
